@@ -1,7 +1,24 @@
-/- Driver glue for C04: case lines `c04.<sub> <args…> | <impl…>` (stub until the property is built) -/
+/-
+  Driver glue for C04.
+    c04.pool <std|lowmem> <cap> <nreaders> <script…> | <blocks…>      (see harness c04.go)
+  M = the model's replay of the observed blocks; P = no reader left in Cond.Wait with an event
+  available after a heartbeat (SpecC04) and the capacity clauses (SpecC05).
+-/
 import FileD.Prelude.Tok
+import FileD.Drv.PoolTrace
+import FileD.Spec.C04
+import FileD.Spec.C05
 namespace FileD.DrvC04
+open FileD
 
-def handle (_cmd : String) (_args _impl : List String) : Option (String × String) := none
+def handlePool (args impl : List String) : Option (String × String) := do
+  let (m, bs, isStd, cap) ← Drv.PoolTrace.run args impl
+  if m = "bad-impl" then pure (m, "bad-impl") else
+  let p := if SpecC04.holds isStd cap bs && SpecC05.holds cap bs then "ok" else "fail"
+  pure (m, p)
+
+def handle (cmd : String) (args impl : List String) : Option (String × String) :=
+  if cmd = "c04.pool" then handlePool args impl
+  else none
 
 end FileD.DrvC04
